@@ -1323,6 +1323,29 @@ fn witness_from_config(ctx: &mut Ctx, rng: &mut Rng) {
     }
 }
 
+/// the coverage audit of C19 against the eleven classes of missed inputs (also DESIGN §4 C19 "coverage audit")
+fn audit() -> serde_json::Value {
+    json!([
+      {"class": 1, "topic": "entry paths / variants never driven",
+       "covered": "every public item of hash_ring.rs, gossip_router.rs, gossip.rs, gossip_actor.rs, gossip_manager.rs, adaptive_replication.rs, config.rs is SCANNED FROM THE SOURCE the binary was built against and mapped to the op that drives it (153 items; unaccounted = C19:coverage:<file>:<item>-not-driven); new this session: with_defaults, is_responsible(_with_rf), get_primary, contains_node, version, node_count, get_distribution_stats, route_with_stats, calculate_reduction_ratio, update_peer / remove_peer, queue_deltas_broadcast, set_router, advance_epoch, is_selective, the whole GossipActor path (same script, same answers), BOTH gossip loops of production/gossip_manager.rs over real loopback TCP, AdaptiveReplicationManager's per-key RF",
+       "open": "GossipManager::start_server (binds a fixed port; takes no routing decision); GossipMessage::SyncRequest / SyncResponse (never constructed)"},
+      {"class": 2, "topic": "input alphabet", "covered": "keys: empty, ASCII, multi-byte, hash tags, 1-40 random letters, decimal u64 (their ring position is recomputed by the model from the bytes: KP conflicts=0); node ids 0, 1-9, 42, 1000, 0x9e37…, u64::MAX; batches with a key repeated (each delta its own payload / stamp)", "open": ""},
+      {"class": 3, "topic": "comparisons at equality",
+       "covered": "from_config `i + 1 >= replica_id`: replica_id 0, 1..n, n+1, n+2, u64::MAX with n-2 / n-1 / n peers; queue capacity 9 999 / 10 000 / 10 003 heartbeats before the batch; rf 0, 1, = cluster size, > cluster size; walk bounds: 0, 1, 2, many vnodes, keys in the tail of the ring; gossip_interval_ms 0 / 1 / max",
+       "open": "a key position EQUAL to a ring position (binary_search Ok branch, hash_ring.rs:149) needs a SipHash preimage; not reachable through the string API"},
+      {"class": 4, "topic": "configuration",
+       "covered": "every field from_config / the loops read: replica_id, peers, selective_gossip × partitioned_mode × enabled (all eight), gossip_interval_ms; every public builder shape of ReplicationConfig; ring: vnodes 0-200, rf 0-7; AdaptiveConfig default / both presets / random base_rf, hot_key_rf incl. hot < base",
+       "open": "replication_factor / virtual_nodes_per_physical of ReplicationConfig have no reader that builds a ring"},
+      {"class": 5, "topic": "capacity thresholds", "covered": "MAX_OUTBOUND_QUEUE crossed (QUEUE)", "open": "HotKeyConfig.max_tracked_keys (the float-based detector is not modelled)"},
+      {"class": 6, "topic": "fault kinds", "covered": "poisoned RwLock: not produced (no writer panics); loop start with a zero period panics (finding); a target without address is dropped silently (finding: peer-map)", "open": "TCP connect / write errors of send_to_peer_persistent (logged, message lost) — transport, not routing"},
+      {"class": 7, "topic": "history shapes", "covered": "all / sampled join orders; 2-5 add / remove steps incl. members and strangers; the ring emptied completely and refilled in another order; set_router replacing a different router; epochs advancing between queued batches", "open": ""},
+      {"class": 8, "topic": "node-global state", "covered": "the ring shared through Arc<RwLock<HashRing>>: changed AFTER the router was built, the next route must follow it; the connection pool of the loops (persistent connections) carries no routing state", "open": ""},
+      {"class": 9, "topic": "observations", "covered": "ring checksum over (position, node, index), rf, node_count, version, physical order; ordered replica lists; address book; routing table per target IN BATCH ORDER and per delta identity; queue contents with kind, target, source, EPOCH; what each configured peer RECEIVES from a loop", "open": "float statistics"},
+      {"class": 10, "topic": "finding signatures", "covered": "C19:gossip-loop:peer-map:off-by-one fires only when the outcome is what the loop's own arithmetic predicts and the correct arithmetic does not; any other starved owner is C19:gossip-loop:owner-starved (absorption audit: a loop that skips the LAST member is not absorbed)", "open": ""},
+      {"class": 11, "topic": "harness fragility", "covered": "a loop that does not come back within 5 s is C19:gossip-loop:harness; listeners on ephemeral loopback ports (no fixed port); source scan from the tree named by harness/Cargo.toml", "open": "the 15 ms grace after the second collect_deltas call is a wall-clock wait (data is already in the loopback buffers)"}
+    ])
+}
+
 pub fn run(a: &Args) {
     let mut ctx = Ctx { out: Out::new(&a.out), defined: BTreeSet::new() };
     let mut rng = Rng::new(a.seed);
@@ -1336,6 +1359,7 @@ pub fn run(a: &Args) {
     crate::srcscan::report(&mut ctx.out, "C19", "api_coverage(scanned from the source of the dependency)",
         &["src/replication/hash_ring.rs", "src/replication/gossip_router.rs", "src/replication/gossip.rs", "src/production/gossip_actor.rs",
           "src/production/gossip_manager.rs", "src/production/adaptive_replication.rs", "src/replication/config.rs"], &coverage);
+    ctx.out.extra.insert("audit".into(), audit());
     for i in 0..a.n {
         scenario(&mut ctx, &mut rng, thorough, i);
     }
